@@ -189,3 +189,18 @@ func Guard(journal string, f func()) {
 
 // Progress tells the watchdog the current case is still advancing.
 func Progress() { wdSerial.Add(1) }
+
+// Wedged reports a deadlock that the harness has established as a state
+// predicate (a settled snapshot with goroutines parked on a mutex that nothing
+// can release) but from which the bubble cannot be recovered, so rapid cannot
+// continue or shrink: the message (which must contain the whole case) is printed
+// and the process exits with ExitDeadlock at once instead of waiting for the watchdog.
+func Wedged(msg string) {
+	fmt.Printf("VERIF-DEADLOCK: %s\n", msg)
+	if dir := os.Getenv("VERIF_WEDGE_DIR"); dir != "" {
+		_ = os.WriteFile(dir+"/wedge.journal", []byte(msg), 0o644)
+		_ = os.WriteFile(dir+"/wedge.stacks", []byte(allStacks()), 0o644)
+	}
+	Flush()
+	os.Exit(ExitDeadlock)
+}
